@@ -360,8 +360,15 @@ xer_skip_unknown(xer_check_tag_e tcv, ber_tlv_len_t *depth) {
 		return 0;
 	case XCT_CLOSING:
 	case XCT_UNKNOWN_CL:
+		/*
+		 * The counter reaches zero at the closing tag of the element
+		 * the skipping started with, whatever that element is called:
+		 * an extension addition may carry the name of the element it
+		 * sits in (<item><a>1</a><item>2</item></item>), and its
+		 * closing tag does not close the enclosing element.
+		 */
 		if(--(*depth) == 0)
-			return (tcv == XCT_CLOSING) ? 2 : 1;
+			return 1;
 		return 0;
 	default:
 		return -1;
